@@ -81,7 +81,7 @@ class C08(Prop):
             '`started` handler, in any node handler, in a later generator step of a handler, or issued by a second real thread; '
             'kind stop() / stop(code) / raise SystemExit(code) / raise KeyboardInterrupt; code from {None,0,3,"msg"}; before or '
             'after the handler fired its children; 1-3 run/stop cycles on the same manager with 0-2 stop() calls while not '
-            'running in between; real run() with a non-blocking idle stub; non-trivial = >=2 events were still queued or unfired '
+            'running in between; optionally a second stop(code)/SystemExit(code) from the `stopped` handler or the drained tail (must have no effect), a coroutine `stopped` handler, a chain outliving the fade-out; real run() with a non-blocking idle stub; non-trivial = >=2 events were still queued or unfired '
             'descendants of the current batch when the stop executed; distinct = spec hash')
     assumptions = ('the second thread calls stop() while the loop thread waits for it inside a handler (deterministic hand-over); '
                    'arbitrary interleavings of foreign threads are C03',
